@@ -160,6 +160,10 @@ class GatePolicy(taint.Policy):
             vp = self.res_of(eng, fn, op, 0)
             if vp:
                 provs.append(vp)
+                continue
+            fp = self.describer(eng, fn).field_of(op)
+            if fp is not None and fp[2]:
+                provs.append(fp)
         short = "::".join(nn.split("::")[-2:])
         # a closure is part of the function that contains it: `decode::{closure#0}` counts as `PublicKey::decode`
         encl = "::".join(re.sub(r"(::\{closure#\d+\})+$", "", norm_name(fn["name"])).split("::")[-2:])
@@ -713,6 +717,143 @@ class _Plain(taint.Policy):
     implicit = False
 
 
+class _NoncePolicy(taint.Policy):
+    """marks what a reducing scalar decoder returns"""
+    implicit = False
+
+    def call_labels(self, eng, fn, bi, callee, argvals):
+        if callee.get("l") and re.search(r"::(set_)?decode_reduce$", norm_name(callee["f"])):
+            return frozenset([("hred",)])
+        return taint.EMPTY
+
+
+class _NonceAnalysis(taint.FnAnalysis):
+    """records, for every `update(..)` call made directly in the analysed function, the labels of the bytes fed"""
+
+    def call(self, bi, t, st, ctrl):
+        if re.search(r"::update$", norm_name(t[1]["f"])) and len(t[2]) >= 2:
+            lab = taint.EMPTY
+            for a in t[2][1:]:
+                l, p = self.operand(a, st)
+                lab |= l | self.pointee_labels(p, st)
+            self.eng.nonce_events.setdefault(self.fn["id"], []).append((t[5], lab))
+        super().call(bi, t, st, ctrl)
+
+
+class _NonceEngine(taint.Engine):
+    def __init__(self, *a, **kw):
+        taint.Engine.__init__(self, *a, **kw)
+        self.nonce_events = {}
+
+    def summary(self, fn):
+        fid = fn["id"]
+        s = self.summaries.get(fid)
+        if s is not None:
+            return s
+        if fid in self.in_progress:
+            c = taint.Summary()
+            c.conservative = True
+            return c
+        self.in_progress.add(fid)
+        try:
+            s = _NonceAnalysis(self, fn).run()
+        finally:
+            self.in_progress.discard(fid)
+        self.summaries[fid] = s
+        return s
+
+
+def check_nonce_input(facts, run, prop, table, cfg):
+    """G13 (RFC 6979 bits2octets): in ECDSA `sign_hash` the message hash may enter the nonce PRF only after reduction
+    modulo the group order: every `update(..)` of the nonce derivation whose bytes depend on the hash parameter must also
+    depend on the result of a reducing scalar decoder (`h = decode_reduce(hv); update(h.encode())`)."""
+    ents = [e for e in table.get("nonce_input", []) if prop in e["props"]]
+    n = 0
+    for ent in ents:
+        matched = [fn for fn in facts.fns.values() if re.fullmatch(ent["fn"], norm_name(fn["name"]))]
+        if not matched:
+            run.oblige(ok=False)
+            run.add(Finding("G0", ent["fn"], "gates: anchor function %s not found" % ent["fn"], config=cfg, prop=prop))
+        for fn in matched:
+            hp = [i for i in range(1, fn["argc"] + 1) if fn["locals"][i][1] == ent["param"]]
+            if not hp:
+                continue
+            eng = _NonceEngine(facts, _NoncePolicy())
+            eng.summary(fn)
+            evs = eng.nonce_events.get(fn["id"], [])
+            seen_red = False
+            for line, lab in evs:
+                from_h = any(isinstance(a, tuple) and len(a) == 3 and a[0] in ("m", "v") and a[1] == hp[0] for a in lab)
+                red = ("hred",) in lab
+                if not from_h:
+                    continue
+                n += 1
+                ok = red
+                seen_red = seen_red or red
+                run.oblige(ok=ok)
+                if not ok:
+                    run.add(Finding("G13", "%s|raw" % norm_name(fn["name"]),
+                                    "gates G13: in %s (%s:%s) bytes of the hash parameter `%s` are fed to the nonce derivation without "
+                                    "passing through a reducing scalar decoder -- %s" % (fn["name"], fn["file"], line, ent["param"], ent["why"]),
+                                    config=cfg, site="%s:%s" % (fn["file"], line), prop=prop))
+            run.oblige(ok=seen_red)
+            if not seen_red:
+                run.add(Finding("G13", "%s|none" % norm_name(fn["name"]),
+                                "gates G13: in %s (%s:%s) no `update(..)` of the nonce derivation depends on the reduced message hash -- %s" % (
+                                    fn["name"], fn["file"], fn["line"], ent["why"]),
+                                config=cfg, site="%s:%s" % (fn["file"], fn["line"]), prop=prop))
+            elif n % 2 == 0:
+                run.sample("G13 %s: the hash enters the nonce PRF only as decode_reduce(..).encode() (config %s)" % (fn["name"], cfg))
+    return n
+
+
+def check_tiling(facts, run, prop, table, cfg, eng):
+    """G5 wire layout: a fixed-length decoder hands sub-slices of its input to the component decoders; those sub-slices
+    must tile the input exactly -- [0, L) without gap or overlap, L being the length the decoder insists on.  (A point
+    read from `buf[NE..NS+NE]` instead of `buf[NS..NS+NE]` leaves a gap whenever NS != NE.)"""
+    ents = [e for e in table.get("tiling", []) if prop in e["props"]]
+    n = 0
+    for ent in ents:
+        matched = [fn for fn in facts.fns.values() if re.fullmatch(ent["fn"], norm_name(fn["name"]))]
+        if not matched:
+            run.oblige(ok=False)
+            run.add(Finding("G0", ent["fn"], "gates: anchor function %s not found" % ent["fn"], config=cfg, prop=prop))
+        for fn in matched:
+            summ = eng.summary(fn)
+            labs = result_labels(summ)
+            L = None
+            ranges = set()
+            for l in labs:
+                if not (isinstance(l, tuple) and l):
+                    continue
+                if l[0] == "cmp" and l[1] == ("len", ("p", 1, 0, None)) and l[2] in ("Ne", "Eq"):
+                    try:
+                        L = int(l[3])
+                    except ValueError:
+                        pass
+                elif l[0] == "cmpm" and l[1] == ("len", ("p", 1, 0, None)):
+                    pass
+                elif l[0] == "call" and l[4][0] == fn["id"]:
+                    for x in l[2]:
+                        if x is not None and x[0] == "p" and x[1] == 1 and x[3] is not None and not (x[2] == 0 and x[3] is None):
+                            ranges.add((x[2], x[3]))
+            if L is None or not ranges:
+                continue          # not a fixed-length decoder built from component decoders
+            n += 1
+            rs = sorted(ranges)
+            ok = rs[0][0] == 0 and rs[-1][1] == L and all(rs[i][1] == rs[i + 1][0] for i in range(len(rs) - 1))
+            run.oblige(ok=ok)
+            if ok:
+                if n % 6 == 0:
+                    run.sample("G5 %s: component slices %s tile the %d-byte input (config %s)" % (fn["name"], rs, L, cfg))
+            else:
+                run.add(Finding("G5", norm_name(fn["name"]),
+                                "gates G5: %s (%s:%s) requires a %d-byte input but hands the byte ranges %s to its component decoders: they "
+                                "do not tile [0, %d) -- %s" % (fn["name"], fn["file"], fn["line"], L, rs, L, ent["why"]),
+                                config=cfg, site="%s:%s" % (fn["file"], fn["line"]), prop=prop))
+    return n
+
+
 def check_independent(facts, run, prop, table, cfg):
     """G11: the value written through parameter `param` does not depend on its previous value."""
     ents = [e for e in table.get("independent", []) if prop in e["props"]]
@@ -821,6 +962,11 @@ def run_gates(facts, run, prop):
     n_ca += check_independent(facts, run, prop, table, cfg)
     n_ca += check_failmask(facts, run, prop, table, cfg, eng)
     n_ca += check_maskbytes(facts, run, prop, table, cfg, eng)
+    n_ca += check_nonce_input(facts, run, prop, table, cfg)
+    n_til = check_tiling(facts, run, prop, table, cfg, eng)
+    if any(prop in e["props"] for e in table.get("tiling", [])) and n_til < 20:
+        run.oblige(ok=False)
+        run.add(Finding("G5", "anchor", "gates G5: only %d fixed-length composite decoders found (floor 20)" % n_til, config=cfg, prop=prop))
     if prop == "C16":
         from . import lmsstate
         lmsstate.run_lmsstate(facts, run, prop)
